@@ -267,8 +267,7 @@ class FitImprove(Contract):
     variants = [(algo, linear) for algo in ("none", "auto", "intercept_sort_always") for linear in (True, False) if not (algo == "intercept_sort_always" and not linear)]
     loop_kinds = {0: {"best": "real", "besti": "int", "beta_best": "real", "beta": "real", "like": "real", "w": "real"}}
     # the search loop only chooses a number (the new intercept): nothing about WHICH one is claimed, so no fact has to be carried through it
-    loops = {0: lambda E, L: {"the_rows_are_still_all_there": z(L["N"]) == z(L["X"].shape[0]),
-                              "best_value_position_and_intercept_are_set_together": z3.BoolVal(
+    loops = {0: lambda E, L: {"best_value_position_and_intercept_are_set_together": z3.BoolVal(
                                   (L["besti"] is None) == (L["best"] is None) and (L["besti"] is None) == (L["beta_best"] is None))}}
     max_paths = 20000
 
